@@ -8,9 +8,9 @@ regenerated type descriptors. The tie to the Go code is translator X1/X2 + the c
 
 Scope of the theorems: every descriptor `T` with `wfTop env T` (decided per regenerated type: `wf_<T>` in
 TongoGen/TlbTypes.lean), every value in `inDom`. NOT covered (listed in the evidence): types containing a custom
-codec without a model (`opaque`), dictionaries other than the empty one (`dictE`, owned by C05), the hand-written
-codecs whose CodecOK lemma is not proved (`Prim.proved = false`: SnakeData/Bytes/Text, VmCellSlice, PayloadV1toV4,
-W5Actions) and the types pinned in harness/tlbx/nonwf.go. -/
+codec without a model (`opaque`), dictionaries other than the empty one (`dictE`, owned by C05), the one
+hand-written codec whose CodecOK lemma is not proved (`Prim.proved = false`: wallet.W5Actions) and the types
+pinned in harness/tlbx/nonwf.go. -/
 namespace Tongo.Tlb.C03
 open Tongo Tongo.Tlb Tongo.Bits
 
@@ -187,11 +187,14 @@ theorem grams_orig_defect :
   decide
 
 /-- **signedcoins_roundtrip**, **msgaddress_roundtrip** (four constructors, anycast depth 1..30, extern length
-0..511) and the other hand-written codecs: the uniform statement `PrimOK p` for every codec marked proved. -/
+0..511), **snake_roundtrip** (any length, chaining over references) and the other hand-written codecs: the uniform
+statement `PrimOK p` for every codec marked proved (18 of the 19 modelled ones; not wallet.W5Actions). -/
 theorem codec_ok (p : Prim) (hp : p.proved = true) : PrimOK p := primOK_of_proved p hp
 
 theorem signedcoins_roundtrip : PrimOK .signedCoins := primOK_signedCoins
 theorem msgaddress_roundtrip : PrimOK .msgAddress := primOK_msgAddress
+theorem snake_roundtrip : PrimOK .snake := primOK_snake
+theorem wallet_payload_roundtrip : PrimOK .payloadV1toV4 := primOK_payloadV1toV4
 
 /-- **vmstack_convention**: `decode (encode s) = ok s.reverse` (arguments listed top-first, results bottom-first).
 Stated; not proved in Lean. The model implements the convention (putStackListItems / getStackListItems) and the
